@@ -127,6 +127,12 @@ FamSig(relays, queries) ==
   \/ \E m \in MethodCfgs, ky \in Keys :
       /\ cfg = [BaseCfg EXCEPT !.method = m, !.key = ky]
       /\ in = In("sig", "artifact", "soap", <<>>, <<>>)
+  \* the signature covers what is emitted whatever the message carries: every content setting of the
+  \* AuthnRequest (name-ID format, ForceAuthn, RequestedAuthnContext) under a signing configuration
+  \/ \E mk \in {<<"rsa-sha256", "rsa2048">>, <<"rsa-sha1", "rsa2048">>, <<"ecdsa-sha256", "ec256">>},
+        f \in NidFmts, fa \in Forces, r \in BOOLEAN, b \in Bindings :
+      /\ cfg = [BaseCfg EXCEPT !.method = mk[1], !.key = mk[2], !.nidfmt = f, !.force = fa, !.rac = r]
+      /\ in = In("sig", "authn", b, <<"plain">>, <<>>)
 \* ID freshness: arbitrary sequences of creations
 FamSeq == cfg = BaseCfg /\ in = In("seq", "seq", "none", <<>>, <<>>)
 
